@@ -223,6 +223,54 @@ inductive!(c01_proxy_inductive_o31, (1i64 << 31) - 4);
 inductive!(c01_proxy_inductive_o32, (1i64 << 32) - 4);
 inductive!(c01_proxy_inductive_o62, 1i64 << 62);
 
+/// Top of the sequence-number space (C03 "any first/last", C06 "extreme in its numeric fields"):
+/// ONE step from any valid state whose window [origin, origin+W+1] ends at i64::MAX.  Decided: no
+/// panic / overflow, the known set grows by exactly the announced SNs, the frontier does not move
+/// backwards and never passes a SN that is not known.  (The frontier cannot be "one past
+/// i64::MAX", so exactness is only demanded while an unknown SN is left in the window.)
+fn step_at_top() {
+  const N: i64 = W + 2; // SNs in the window; the last one is i64::MAX
+  let origin = i64::MAX - (W + 1);
+  fn known_top(p: &RtpsWriterProxy, origin: i64) -> u32 {
+    let mut m = 0u32;
+    let mut i = 0;
+    while i < N {
+      if p.should_ignore_change(sn(origin, i)) {
+        m |= 1 << i;
+      }
+      i += 1;
+    }
+    m
+  }
+  let mut p = any_valid_proxy(origin);
+  let known_pre = known_top(&p, origin);
+  let base_pre = p.all_ackable_before();
+  vk::assume(i64::from(base_pre) >= origin);
+  let op = any_op();
+  let ts = Timestamp::from_ticks(vk::any::<u64>());
+  apply(&mut p, origin, op, ts);
+  let known_post = known_top(&p, origin);
+  let window: u32 = (1u32 << N) - 1;
+  assert!(known_post == (known_pre | op_mask(op, 0)) & window, "known set after the step differs from pre ∪ op");
+  assert!(p.all_ackable_before() >= base_pre, "ack frontier moved backwards");
+  let lu = least_unknown(known_post | !window);
+  if lu < N {
+    assert!(i64::from(p.all_ackable_before()) - origin == lu, "ack frontier is not the lowest unknown sequence number");
+  } else {
+    assert!(p.all_ackable_before() >= SequenceNumber::new(i64::MAX), "everything up to i64::MAX known, frontier below the top");
+  }
+  assert!(crate::verif_env::map_is_valid(&p.changes) && p.ack_base >= SequenceNumber::new(1));
+  vk_cover!(lu >= N, "window known up to i64::MAX");
+  vk_cover!(matches!(op, Op::Data(a) if a == W), "DATA next to the top");
+}
+#[cfg_attr(kani, kani::proof, kani::unwind(11))]
+#[cfg_attr(verif_replay, test)]
+fn c03_proxy_step_top() {
+  vk::begin("c03_proxy_step_top");
+  step_at_top();
+  vk::end();
+}
+
 /// k operations from the initial proxy (guards against an invariant no history reaches,
 /// and exercises the real constructor).
 fn sequence_from_initial(k: usize) {
